@@ -1329,9 +1329,12 @@ def install(ctx):
         tname = last_type_name(ety) if ety else ''
         crate_cmp = ip.index.methods.get((tname, 'Ord', 'cmp'))
         use_mir = bool(crate_cmp) and not crate_cmp[0].impl_info[2]
+        # the std sorts compare with `T::lt`, i.e. through PartialOrd::partial_cmp: run the crate's hand-written one when there is one
+        crate_pcmp = ip.index.methods.get((tname, 'PartialOrd', 'partial_cmp'))
+        use_pcmp = bool(crate_pcmp) and not crate_pcmp[0].impl_info[2]
 
         def lt(a, b):
-            if use_mir:
+            if use_mir or use_pcmp:
                 x, y = a, b
                 # peel Arc / references down to the element type's own value location
                 def to_ref(v):
@@ -1347,7 +1350,13 @@ def install(ctx):
                             continue
                         return Ref(Loc(Cell(v, 'sort-elem')))
                     return v
-                o = yield from ip.call_fn(crate_cmp[0], [to_ref(x), to_ref(y)])
+                if use_pcmp:
+                    po = yield from ip.call_fn(crate_pcmp[0], [to_ref(x), to_ref(y)])
+                    if variant_of(ip, po) == 0:
+                        return z3.BoolVal(False)
+                    o = po.payload[1][0]
+                else:
+                    o = yield from ip.call_fn(crate_cmp[0], [to_ref(x), to_ref(y)])
                 d = o.discr if not isinstance(o.discr, int) else z3.IntVal(o.discr)
                 return d == -1
             x, y = deref_all(a), deref_all(b)
